@@ -1,8 +1,11 @@
 #!/bin/bash
 # Re-runs every seeded change against the check of its own property (quick tier). One line each.
+# usage: run_all_mutants.sh [first-id]   (resume: ids sorting before first-id are skipped)
 cd /verif
+FIRST=${1:-}
 for d in seeded/*/; do
   n=$(basename $d); prop=${n%%-*}
+  [ -n "$FIRST" ] && [[ "$n" < "$FIRST" ]] && continue
   grep -q '"superseded"' $d/meta.json 2>/dev/null && { echo "$n: superseded by a repo fix (see meta.json)"; continue; }
   p=$d/patch.diff; [ -f $d/patch_rebased_on_current_repo.diff ] && p=$d/patch_rebased_on_current_repo.diff
   (cd /repo && git apply --check $PWD/../verif/$p 2>/dev/null) || { echo "$n: patch does not apply"; continue; }
